@@ -138,12 +138,30 @@ def run_scenario(project: Any, sc: int = 0) -> list[str]:
         return None
 
     project.warning = warning
+    from scriptplan.core.task_scenario import TaskScenario
+
+    real_slot = TaskScenario.scheduleSlot
+    steps = [0]
+    limit = (sum(1 for t in project.tasks if t.leaf()) + 2) * (project.scoreboardSize() + 2) * 4
+
+    def counted(self: Any) -> bool:
+        steps[0] += 1
+        if steps[0] > limit:
+            raise RuntimeError(f"scheduling does not terminate within a bound proportional to project size ({steps[0]} slot steps)")
+        return real_slot(self)
+
+    TaskScenario.scheduleSlot = counted  # type: ignore[method-assign]
     try:
         project.scheduleScenario(sc)
         project.finishScenario(sc)
     finally:
+        TaskScenario.scheduleSlot = real_slot  # type: ignore[method-assign]
         del project.warning
+    LAST_STEPS[0] = steps[0]
     return ids
+
+
+LAST_STEPS = [0]
 
 
 def secs(x: Any, base: Optional[datetime]) -> Any:
